@@ -252,7 +252,15 @@ def mutate_ref(rng, pred, root_desc_of, kind):
             if not sibs:
                 continue
             n = rng.choice(sibs)
-            return put(pred, path, rebuild(root, st[:-1] + [n], idxs)), {'kind': kind, 'from': d[2], 'to': parent[2][n][2], 'offender': n}
+            bad = rebuild(root, st[:-1] + [n], idxs)
+            mutated = put(pred, path, bad)
+            info = {'kind': kind, 'from': d[2], 'to': parent[2][n][2], 'offender': n}
+            if rng.random() < 0.4:
+                # the same (now wrongly typed) path also occurs EARLIER in a position that only asks for a primitive: every occurrence
+                # has to be checked against the declared type, not only the first one of each path
+                mutated = ('bin', 'and', ('call', 'bool', [bad]), mutated)
+                info['loose_occurrence_first'] = True
+            return mutated, info
     return None
 
 
